@@ -411,11 +411,17 @@ def normalize_url(
         path = ""
 
     # Dropping irrelevant subdomains
+    # NOTE: a host made of irrelevant labels only ("www.", "amp-") is kept
     if hostname and strip_irrelevant_subdomains:
-        hostname = re.sub(
-            IRRELEVANT_SUBDOMAIN_AMP_RE if normalize_amp else IRRELEVANT_SUBDOMAIN_RE,
-            "",
-            hostname,
+        hostname = (
+            re.sub(
+                IRRELEVANT_SUBDOMAIN_AMP_RE
+                if normalize_amp
+                else IRRELEVANT_SUBDOMAIN_RE,
+                "",
+                hostname,
+            )
+            or hostname
         )
 
     # Dropping scheme
@@ -428,12 +434,12 @@ def normalize_url(
         password = None
 
     # Normalizing AMP subdomains
-    if normalize_amp and hostname and hostname.startswith("amp-"):
+    if normalize_amp and hostname and hostname.startswith("amp-") and hostname != "amp-":
         hostname = hostname[4:]
 
         # NOTE: what follows "amp-" can be an irrelevant subdomain too
         if strip_irrelevant_subdomains:
-            hostname = IRRELEVANT_SUBDOMAIN_AMP_RE.sub("", hostname)
+            hostname = IRRELEVANT_SUBDOMAIN_AMP_RE.sub("", hostname) or hostname
 
     # Dropping trailing slash
     if strip_trailing_slash and path.endswith("/"):
